@@ -5,6 +5,7 @@ mod doc;
 mod drive;
 mod extract;
 mod grammar;
+mod merge;
 mod numbers;
 mod replay;
 mod rx;
@@ -95,6 +96,9 @@ fn main() {
         }
         Some("numbers") => {
             println!("{}", numbers::run(&arg(&args, "--in").expect("--in"), &arg(&args, "--out").expect("--out")));
+        }
+        Some("merge") => {
+            println!("{}", merge::run(&arg(&args, "--in").expect("--in"), &arg(&args, "--out").expect("--out")));
         }
         Some("histories") => {
             let input = arg(&args, "--in").expect("--in");
